@@ -828,6 +828,18 @@ impl Wallet {
         let uuid_pubkey = Wallet::create_nft_uuid(&input_slip, &nft_type);
 
         //
+        // the input slip is committed to this transaction: it leaves the unspent
+        // list and the balance like the slips generate_slips selects (otherwise the
+        // top-up below, or the next transaction, selects it a second time)
+        //
+        if self.unspent_slips.remove(&utxo_key) {
+            if let Some(wallet_slip) = self.slips.get_mut(&utxo_key) {
+                wallet_slip.spent = true;
+                self.available_balance -= wallet_slip.amount;
+            }
+        }
+
+        //
         // and create the slip with this "artificially-created" publickey
         //
         let output_slip3 = Slip {
